@@ -280,6 +280,9 @@ DIAG = [
     ("method", 'method m(this: String): Int {\n  this.nosuch("a b") this.len(1)\n}\n'),
     ("import", 'import "./nosuch.gdn" as ns\n\nimport "a b"\n'),
     ("toplevel", 'let v = "a b" + 1\nnosuch\n// done\n'),
+    # fixes whose range starts at the end of a *neighbouring* node (so gaps between operands move its start)
+    ("repeated bool", 'fun f(a: Bool, b: Bool): Bool {\n  print("a b") a && b && a\n}\n'),
+    ("repeated bool in parentheses", 'fun f(a: Bool, b: Bool): Bool {\n  (a || b) || (a)\n}\n'),
 ]
 
 # programs that raise at run time (exception / assertion / tick limit), error site after a string on the same line where possible
